@@ -32,7 +32,9 @@ struct Src {
     ~Src() { std::free(p); }
 };
 
-template <typename Char, std::size_t Cap>
+// Q: the query operations (search / compare / replace / accessors ...) are compiled for this instantiation;
+// every instantiation has the histories
+template <typename Char, std::size_t Cap, bool Q = true>
 struct Run {
     using E = etl::basic_inplace_string<Char, Cap>;
     using S = std::basic_string<Char>;
@@ -50,8 +52,11 @@ struct Run {
     }
 
     // one history step on both strings; returns false when the reference has no defined result
-    static bool step(Toks& in, E& e, bool& contract, S& r, bool& refOk)
+    // retImpl / retRef: the iterator returned by erase(first, last) / erase(position) as an offset (-1: none)
+    static bool step(Toks& in, E& e, bool& contract, S& r, bool& refOk, i64& retImpl, i64& retRef)
     {
+        retImpl = -1;
+        retRef  = -1;
         auto op = in.str();
         Out scratch;
         auto impl = [&](auto f) {
@@ -114,9 +119,10 @@ struct Run {
         } else if (op == "erng") {
             auto i = static_cast<std::size_t>(in.unum());
             auto n = static_cast<std::size_t>(in.unum());
-            impl([&] { e.erase(e.cbegin() + i, e.cbegin() + i + n); });
-            ref(i <= r.size() && n <= r.size() - i,
-                [&] { r.erase(r.cbegin() + static_cast<std::ptrdiff_t>(i), r.cbegin() + static_cast<std::ptrdiff_t>(i + n)); });
+            impl([&] { retImpl = static_cast<i64>(e.erase(e.cbegin() + i, e.cbegin() + i + n) - e.begin()); });
+            ref(i <= r.size() && n <= r.size() - i, [&] {
+                retRef = static_cast<i64>(r.erase(r.cbegin() + static_cast<std::ptrdiff_t>(i), r.cbegin() + static_cast<std::ptrdiff_t>(i + n)) - r.begin());
+            });
         } else if (op == "rs") {
             auto n = static_cast<std::size_t>(in.unum());
             auto c = static_cast<Char>(in.num());
@@ -147,13 +153,195 @@ struct Run {
                 S other(src.p, src.n);
                 r.swap(other);
             });
+        } else if (op == "rs0") {
+            auto n = static_cast<std::size_t>(in.unum());
+            impl([&] { e.resize(n); });
+            ref(n <= 100000, [&] { r.resize(n); });
+        } else if (op == "acs" || op == "pez" || op == "plz" || op == "zcs" || op == "zeq") {
+            // Char const* argument: the characters followed by a null character (exact-size heap array)
+            auto v = in.list();
+            v.push_back(0);
+            Src<Char> a(v);
+            Char const* p = a.p;
+            if (op == "acs") {
+                impl([&] { e.append(p); });
+                ref(true, [&] { r.append(p); });
+            } else if (op == "pez") {
+                impl([&] { e += p; });
+                ref(true, [&] { r += p; });
+            } else if (op == "plz") {
+                impl([&] { e = e + p; });
+                ref(true, [&] { r = r + p; });
+            } else if (op == "zcs") {
+                impl([&] { e.assign(p); });
+                ref(true, [&] { r.assign(p); });
+            } else {
+                impl([&] { e = p; });
+                ref(true, [&] { r = p; });
+            }
+        } else if (op == "ast" || op == "pes" || op == "pls") {
+            Src<Char> src(in.list());
+            bool const ok = src.n <= Cap;
+            if (op == "ast") {
+                impl([&] { E o(static_cast<Char const*>(src.p), src.n); e.append(o); });
+                ref(ok, [&] { r.append(S(src.p, src.n)); });
+            } else if (op == "pes") {
+                impl([&] { E o(static_cast<Char const*>(src.p), src.n); e += o; });
+                ref(ok, [&] { r += S(src.p, src.n); });
+            } else {
+                impl([&] { E o(static_cast<Char const*>(src.p), src.n); e = e + o; });
+                ref(ok, [&] { r = r + S(src.p, src.n); });
+            }
+        } else if (op == "plc" || op == "pec") {
+            auto c = static_cast<Char>(in.num());
+            if (op == "plc") {
+                impl([&] { e = e + c; });
+                ref(true, [&] { r = r + c; });
+            } else {
+                impl([&] { e += c; });
+                ref(true, [&] { r += c; });
+            }
+        } else if (op == "av" || op == "zv") {
+            Src<Char> src(in.list());
+            etl::basic_string_view<Char> ev(src.p, src.n);
+            std::basic_string_view<Char> rv(src.p, src.n);
+            if (op == "av") {
+                impl([&] { e.append(ev); });
+                ref(true, [&] { r.append(rv); });
+            } else {
+                impl([&] { e.assign(ev); });
+                ref(true, [&] { r.assign(rv); });
+            }
+        } else if (op == "ass" || op == "avs" || op == "zss" || op == "zvs") {
+            Src<Char> src(in.list());
+            auto p = static_cast<std::size_t>(in.unum());
+            auto n = static_cast<std::size_t>(in.unum());
+            etl::basic_string_view<Char> ev(src.p, src.n);
+            std::basic_string_view<Char> rv(src.p, src.n);
+            if (op == "ass") {
+                impl([&] { E o(static_cast<Char const*>(src.p), src.n); e.append(o, p, n); });
+                ref(src.n <= Cap && p <= src.n, [&] { r.append(S(src.p, src.n), p, n); });
+            } else if (op == "avs") {
+                impl([&] { e.append(ev, p, n); });
+                ref(p <= src.n, [&] { r.append(rv, p, n); });
+            } else if (op == "zss") {
+                impl([&] { E o(static_cast<Char const*>(src.p), src.n); e.assign(o, p, n); });
+                ref(src.n <= Cap && p <= src.n, [&] { r.assign(S(src.p, src.n), p, n); });
+            } else {
+                impl([&] { e.assign(ev, p, n); });
+                ref(p <= src.n, [&] { r.assign(rv, p, n); });
+            }
+        } else if (op == "ics") {
+            auto i = static_cast<std::size_t>(in.unum());
+            auto v = in.list();
+            v.push_back(0);
+            Src<Char> a(v);
+            Char const* p = a.p;
+            impl([&] { e.insert(i, p); });
+            ref(i <= r.size(), [&] { r.insert(i, p); });
+        } else if (op == "ist" || op == "iv") {
+            auto i = static_cast<std::size_t>(in.unum());
+            Src<Char> src(in.list());
+            if (op == "ist") {
+                impl([&] { E o(static_cast<Char const*>(src.p), src.n); e.insert(i, o); });
+                ref(src.n <= Cap && i <= r.size(), [&] { r.insert(i, S(src.p, src.n)); });
+            } else {
+                etl::basic_string_view<Char> ev(src.p, src.n);
+                std::basic_string_view<Char> rv(src.p, src.n);
+                impl([&] { e.insert(i, ev); });
+                ref(i <= r.size(), [&] { r.insert(i, rv); });
+            }
+        } else if (op == "iss" || op == "ivs") {
+            auto i = static_cast<std::size_t>(in.unum());
+            Src<Char> src(in.list());
+            auto p = static_cast<std::size_t>(in.unum());
+            auto n = static_cast<std::size_t>(in.unum());
+            if (op == "iss") {
+                impl([&] { E o(static_cast<Char const*>(src.p), src.n); e.insert(i, o, p, n); });
+                ref(src.n <= Cap && i <= r.size() && p <= src.n, [&] { r.insert(i, S(src.p, src.n), p, n); });
+            } else {
+                etl::basic_string_view<Char> ev(src.p, src.n);
+                std::basic_string_view<Char> rv(src.p, src.n);
+                impl([&] { e.insert(i, ev, p, n); });
+                ref(i <= r.size() && p <= src.n, [&] { r.insert(i, rv, p, n); });
+            }
+        } else if (op == "kss" || op == "ks" || op == "kvs") {
+            // constructors (str, pos, count), (str, pos), (view, pos, n)
+            Src<Char> src(in.list());
+            auto p = static_cast<std::size_t>(in.unum());
+            auto n = op == "ks" ? std::size_t(0) : static_cast<std::size_t>(in.unum());
+            if (op == "kss") {
+                impl([&] { E o(static_cast<Char const*>(src.p), src.n); e = E(o, p, n); });
+                ref(src.n <= Cap && p <= src.n, [&] { r = S(S(src.p, src.n), p, n); });
+            } else if (op == "ks") {
+                impl([&] { E o(static_cast<Char const*>(src.p), src.n); e = E(o, p); });
+                ref(src.n <= Cap && p <= src.n, [&] { r = S(S(src.p, src.n), p); });
+            } else {
+                etl::basic_string_view<Char> ev(src.p, src.n);
+                std::basic_string_view<Char> rv(src.p, src.n);
+                impl([&] { e = E(ev, p, n); });
+                ref(p <= src.n, [&] { r = S(rv, p, n); });
+            }
+        } else if (op == "kv" || op == "kr") {
+            Src<Char> src(in.list());
+            if (op == "kv") {
+                etl::basic_string_view<Char> ev(src.p, src.n);
+                std::basic_string_view<Char> rv(src.p, src.n);
+                impl([&] { e = E(ev); });
+                ref(true, [&] { r = S(rv); });
+            } else {
+                Char const* f = src.p;
+                Char const* l = src.p + src.n;
+                impl([&] { e = E(f, l); });
+                ref(true, [&] { r = S(f, l); });
+            }
+        } else if (op == "kz" || op == "plzs") {
+            auto v = in.list();
+            v.push_back(0);
+            Src<Char> a(v);
+            Char const* p = a.p;
+            if (op == "kz") {
+                impl([&] { e = E(p); });
+                ref(true, [&] { r = S(p); });
+            } else {
+                Src<Char> src(in.list());
+                impl([&] { E o(static_cast<Char const*>(src.p), src.n); e = p + o; });
+                ref(src.n <= Cap, [&] { r = p + S(src.p, src.n); });
+            }
+        } else if (op == "plcs") {
+            auto c = static_cast<Char>(in.num());
+            Src<Char> src(in.list());
+            impl([&] { E o(static_cast<Char const*>(src.p), src.n); e = c + o; });
+            ref(src.n <= Cap, [&] { r = c + S(src.p, src.n); });
+        } else if (op == "fer") {
+            auto c = static_cast<Char>(in.num());
+            impl([&] { retImpl = static_cast<i64>(etl::erase(e, c)); });
+            ref(true, [&] { retRef = static_cast<i64>(std::erase(r, c)); });
+        } else if (op == "fei") {
+            auto k    = in.num();
+            auto pred = [k](Char x) { return k == 0 ? (x == Char(97) || x == Char(0)) : ((static_cast<i64>(x) & 1) == 0); };
+            impl([&] { retImpl = static_cast<i64>(etl::erase_if(e, pred)); });
+            ref(true, [&] { retRef = static_cast<i64>(std::erase_if(r, pred)); });
+        } else if (op == "erp") {
+            auto i = static_cast<std::size_t>(in.unum());
+            impl([&] { retImpl = static_cast<i64>(e.erase(e.cbegin() + i) - e.begin()); });
+            ref(i < r.size(), [&] { retRef = static_cast<i64>(r.erase(r.cbegin() + static_cast<std::ptrdiff_t>(i)) - r.begin()); });
         } else {
             return false;
         }
         return true;
     }
 
-    static bool hist(Toks& in, Out& impl, Out& ref)
+    // raw storage: all Capacity+1 characters of the object (in the tiny layout the last one is the size byte)
+    static void put_raw(Out& o, E const& s)
+    {
+        o.tok("B");
+        for (std::size_t i = 0; i <= Cap; ++i) { o.num(static_cast<i64>(s.data()[i])); }
+    }
+
+    // raw = true: "histb" — the impl leg prints the raw storage after every step (compared with the model's
+    // array, no reference leg)
+    static bool hist(Toks& in, Out& impl, Out& ref, bool raw = false)
     {
         auto n = in.num();
         E e{};
@@ -164,17 +352,25 @@ struct Run {
         ref.tok("ok");
         for (i64 k = 0; k < n; ++k) {
             bool const was = contract;
-            if (!step(in, e, contract, r, refOk)) { return false; }
+            i64 retImpl = -1;
+            i64 retRef  = -1;
+            if (!step(in, e, contract, r, refOk, retImpl, retRef)) { return false; }
             if (!was) {
                 if (contract) {
                     impl.tok("contract");
+                } else if (raw) {
+                    put_raw(impl, e);
                 } else {
                     put_state(impl, e);
+                    if (retImpl >= 0) { impl.tok("R").num(retImpl); }
                 }
             }
-            if (refOk) { put_state(ref, r); }
+            if (refOk) {
+                put_state(ref, r);
+                if (retRef >= 0) { ref.tok("R").num(retRef); }
+            }
         }
-        if (!refOk) {
+        if (!refOk || raw) {
             ref.s.clear();
             ref.tok("na");
         }
@@ -275,6 +471,200 @@ struct Run {
         return false;
     }
 
+    template <typename Str, typename... A>
+    static std::size_t call_fam(std::string const& f, Str const& s, A... a)
+    {
+        if (f == "find") { return s.find(a...); }
+        if (f == "rfind") { return s.rfind(a...); }
+        if (f == "ffo") { return s.find_first_of(a...); }
+        if (f == "ffno") { return s.find_first_not_of(a...); }
+        if (f == "flo") { return s.find_last_of(a...); }
+        return s.find_last_not_of(a...);
+    }
+
+    // the overloads taking (s, pos, count), (s, pos), (ch, pos); compare overloads; starts_with / ends_with /
+    // contains; relational operators; accessors
+    static bool query2(std::string const& op, Toks& in, Out& impl, Out& ref)
+    {
+        auto us   = op.find('_');
+        auto kind = op.substr(0, us);
+        auto name = us == std::string::npos ? std::string() : op.substr(us + 1);
+        Src<Char> content(in.list());
+        if (content.n > Cap) {
+            impl.tok("contract");
+            return true;
+        }
+        E e(static_cast<Char const*>(content.p), content.n);
+        S r(content.p, content.n);
+        using EV = etl::basic_string_view<Char>;
+        using RV = std::basic_string_view<Char>;
+        auto cstr = [&] {
+            auto v = in.list();
+            v.push_back(0);
+            return v;
+        };
+        if (kind == "sp") {
+            Src<Char> a(in.list());
+            auto pos = static_cast<std::size_t>(in.unum());
+            auto cnt = static_cast<std::size_t>(in.unum());
+            if (cnt > a.n) { return false; }
+            Char const* p = a.p;
+            guarded(impl, [&](Out& o) { o.tok("ok").unum(call_fam(name, e, p, pos, cnt)); });
+            ref.tok("ok").unum(call_fam(name, r, p, pos, cnt));
+            return true;
+        }
+        if (kind == "sz") {
+            Src<Char> a(cstr());
+            auto pos      = static_cast<std::size_t>(in.unum());
+            Char const* p = a.p;
+            guarded(impl, [&](Out& o) { o.tok("ok").unum(call_fam(name, e, p, pos)); });
+            ref.tok("ok").unum(call_fam(name, r, p, pos));
+            return true;
+        }
+        if (kind == "sc") {
+            auto c   = static_cast<Char>(in.num());
+            auto pos = static_cast<std::size_t>(in.unum());
+            guarded(impl, [&](Out& o) { o.tok("ok").unum(call_fam(name, e, c, pos)); });
+            ref.tok("ok").unum(call_fam(name, r, c, pos));
+            return true;
+        }
+        if (op == "c3") {
+            auto p1 = static_cast<std::size_t>(in.unum());
+            auto n1 = static_cast<std::size_t>(in.unum());
+            Src<Char> b(in.list());
+            if (b.n > Cap) {
+                impl.tok("contract");
+                return true;
+            }
+            E eb(static_cast<Char const*>(b.p), b.n);
+            guarded(impl, [&](Out& o) { o.tok("ok").num(sign(e.compare(p1, n1, eb))); });
+            if (p1 <= r.size()) { ref.tok("ok").num(sign(r.compare(p1, n1, S(b.p, b.n)))); }
+            return true;
+        }
+        if (op == "cz") {
+            Src<Char> a(cstr());
+            Char const* p = a.p;
+            guarded(impl, [&](Out& o) { o.tok("ok").num(sign(e.compare(p))); });
+            ref.tok("ok").num(sign(r.compare(p)));
+            return true;
+        }
+        if (op == "c3z") {
+            auto p1 = static_cast<std::size_t>(in.unum());
+            auto n1 = static_cast<std::size_t>(in.unum());
+            Src<Char> a(cstr());
+            Char const* p = a.p;
+            guarded(impl, [&](Out& o) { o.tok("ok").num(sign(e.compare(p1, n1, p))); });
+            if (p1 <= r.size()) { ref.tok("ok").num(sign(r.compare(p1, n1, p))); }
+            return true;
+        }
+        if (op == "c4p") {
+            auto p1 = static_cast<std::size_t>(in.unum());
+            auto n1 = static_cast<std::size_t>(in.unum());
+            Src<Char> a(in.list());
+            auto n2 = static_cast<std::size_t>(in.unum());
+            if (n2 > a.n) { return false; }
+            Char const* p = a.p;
+            guarded(impl, [&](Out& o) { o.tok("ok").num(sign(e.compare(p1, n1, p, n2))); });
+            if (p1 <= r.size()) { ref.tok("ok").num(sign(r.compare(p1, n1, p, n2))); }
+            return true;
+        }
+        if (op == "cv") {
+            Src<Char> b(in.list());
+            guarded(impl, [&](Out& o) { o.tok("ok").num(sign(e.compare(EV(b.p, b.n)))); });
+            ref.tok("ok").num(sign(r.compare(RV(b.p, b.n))));
+            return true;
+        }
+        if (op == "c3v") {
+            auto p1 = static_cast<std::size_t>(in.unum());
+            auto n1 = static_cast<std::size_t>(in.unum());
+            Src<Char> b(in.list());
+            guarded(impl, [&](Out& o) { o.tok("ok").num(sign(e.compare(p1, n1, EV(b.p, b.n)))); });
+            if (p1 <= r.size()) { ref.tok("ok").num(sign(r.compare(p1, n1, RV(b.p, b.n)))); }
+            return true;
+        }
+        if (op == "c5v") {
+            auto p1 = static_cast<std::size_t>(in.unum());
+            auto n1 = static_cast<std::size_t>(in.unum());
+            Src<Char> b(in.list());
+            auto p2 = static_cast<std::size_t>(in.unum());
+            auto n2 = static_cast<std::size_t>(in.unum());
+            guarded(impl, [&](Out& o) { o.tok("ok").num(sign(e.compare(p1, n1, EV(b.p, b.n), p2, n2))); });
+            if (p1 <= r.size() && p2 <= b.n) { ref.tok("ok").num(sign(r.compare(p1, n1, RV(b.p, b.n), p2, n2))); }
+            return true;
+        }
+        if (kind == "pfx") {
+            // starts_with, ends_with, contains (C++23 contains = find != npos)
+            if (name == "v") {
+                Src<Char> b(in.list());
+                guarded(impl, [&](Out& o) {
+                    o.tok("ok").b(e.starts_with(EV(b.p, b.n))).b(e.ends_with(EV(b.p, b.n))).b(e.contains(EV(b.p, b.n)));
+                });
+                ref.tok("ok").b(r.starts_with(RV(b.p, b.n))).b(r.ends_with(RV(b.p, b.n))).b(r.find(RV(b.p, b.n)) != npos);
+                return true;
+            }
+            if (name == "c") {
+                auto c = static_cast<Char>(in.num());
+                guarded(impl, [&](Out& o) { o.tok("ok").b(e.starts_with(c)).b(e.ends_with(c)).b(e.contains(c)); });
+                ref.tok("ok").b(r.starts_with(c)).b(r.ends_with(c)).b(r.find(c) != npos);
+                return true;
+            }
+            if (name == "z") {
+                Src<Char> a(cstr());
+                Char const* p = a.p;
+                guarded(impl, [&](Out& o) { o.tok("ok").b(e.starts_with(p)).b(e.ends_with(p)).b(e.contains(p)); });
+                ref.tok("ok").b(r.starts_with(p)).b(r.ends_with(p)).b(r.find(p) != npos);
+                return true;
+            }
+            return false;
+        }
+        if (kind == "rel") {
+            if (name == "ss") {
+                Src<Char> b(in.list());
+                if (b.n > Cap) {
+                    impl.tok("contract");
+                    return true;
+                }
+                E eb(static_cast<Char const*>(b.p), b.n);
+                S rb(b.p, b.n);
+                guarded(impl, [&](Out& o) {
+                    o.tok("ok").b(e == eb).b(e != eb).b(e < eb).b(e <= eb).b(e > eb).b(e >= eb);
+                });
+                ref.tok("ok").b(r == rb).b(r != rb).b(r < rb).b(r <= rb).b(r > rb).b(r >= rb);
+                return true;
+            }
+            Src<Char> a(cstr());
+            Char const* p = a.p;
+            if (name == "sz") {
+                guarded(impl, [&](Out& o) { o.tok("ok").b(e == p).b(e != p).b(e < p).b(e <= p).b(e > p).b(e >= p); });
+                ref.tok("ok").b(r == p).b(r != p).b(r < p).b(r <= p).b(r > p).b(r >= p);
+                return true;
+            }
+            if (name == "zs") {
+                guarded(impl, [&](Out& o) { o.tok("ok").b(p == e).b(p != e).b(p < e).b(p <= e).b(p > e).b(p >= e); });
+                ref.tok("ok").b(p == r).b(p != r).b(p < r).b(p <= r).b(p > r).b(p >= r);
+                return true;
+            }
+            return false;
+        }
+        if (op == "idx") {
+            auto i = static_cast<std::size_t>(in.unum());
+            guarded(impl, [&](Out& o) { o.tok("ok").num(static_cast<i64>(e[i])); });
+            if (i <= r.size()) { ref.tok("ok").num(static_cast<i64>(r[i])); }
+            return true;
+        }
+        if (op == "fb") {
+            guarded(impl, [&](Out& o) { o.tok("ok").num(static_cast<i64>(e.front())).num(static_cast<i64>(e.back())); });
+            if (!r.empty()) { ref.tok("ok").num(static_cast<i64>(r.front())).num(static_cast<i64>(r.back())); }
+            return true;
+        }
+        if (op == "ef") {
+            guarded(impl, [&](Out& o) { o.tok("ok").b(e.empty()).b(e.full()).unum(e.size()).unum(e.length()).unum(e.capacity()).unum(e.max_size()).unum(static_cast<std::size_t>(e.end() - e.begin())); });
+            ref.tok("ok").b(r.empty()).b(r.size() == Cap).unum(r.size()).unum(r.length()).unum(Cap).unum(Cap).unum(static_cast<std::size_t>(r.end() - r.begin()));
+            return true;
+        }
+        return false;
+    }
+
     static bool replace(Toks& in, Out& impl, Out& ref)
     {
         Src<Char> content(in.list());
@@ -303,29 +693,96 @@ struct Run {
         return true;
     }
 
+    // replace5: replace(pos, count, str, pos2, count2); replacep: replace(pos, count, s, count2);
+    // replacez: replace(pos, count, s) with a null-terminated s
+    static bool replace_more(std::string const& op, Toks& in, Out& impl, Out& ref)
+    {
+        Src<Char> content(in.list());
+        auto pos = static_cast<std::size_t>(in.unum());
+        auto cnt = static_cast<std::size_t>(in.unum());
+        auto v   = in.list();
+        if (op == "replacez") { v.push_back(0); }
+        Src<Char> src(v);
+        std::size_t pos2 = 0;
+        std::size_t cnt2 = 0;
+        if (op == "replace5") {
+            pos2 = static_cast<std::size_t>(in.unum());
+            cnt2 = static_cast<std::size_t>(in.unum());
+        }
+        if (op == "replacep") {
+            cnt2 = static_cast<std::size_t>(in.unum());
+            if (cnt2 > src.n) { return false; }
+        }
+        if (content.n > Cap || (op == "replace5" && src.n > Cap)) {
+            impl.tok("contract");
+            return true;
+        }
+        E e(static_cast<Char const*>(content.p), content.n);
+        S r(content.p, content.n);
+        Char const* p = src.p;
+        guarded(impl, [&](Out& o) {
+            if (op == "replace5") {
+                E es(p, src.n);
+                e.replace(pos, cnt, es, pos2, cnt2);
+            } else if (op == "replacep") {
+                e.replace(pos, cnt, p, cnt2);
+            } else {
+                e.replace(pos, cnt, p);
+            }
+            o.tok("ok");
+            put_state(o, e);
+        });
+        if (pos <= r.size() && (op != "replace5" || pos2 <= src.n)) {
+            if (op == "replace5") {
+                r.replace(pos, cnt, S(src.p, src.n), pos2, cnt2);
+            } else if (op == "replacep") {
+                r.replace(pos, cnt, p, cnt2);
+            } else {
+                r.replace(pos, cnt, p);
+            }
+            if (r.size() <= Cap) {
+                ref.tok("ok");
+                put_state(ref, r);
+            }
+        }
+        return true;
+    }
+
     static bool run(std::string const& op, Toks& in, Out& impl, Out& ref)
     {
         if (op == "hist") { return hist(in, impl, ref); }
-        if (op == "replace") { return replace(in, impl, ref); }
-        return query(op, in, impl, ref);
+        if (op == "histb") { return hist(in, impl, ref, true); }
+        if constexpr (Q) {
+            if (op == "replace") { return replace(in, impl, ref); }
+            if (op == "replace5" || op == "replacep" || op == "replacez") { return replace_more(op, in, impl, ref); }
+            auto k = op.substr(0, op.find('_'));
+            if (k == "q" || k == "qd" || k == "cmp" || k == "copy") { return query(op, in, impl, ref); }
+            return query2(op, in, impl, ref);
+        }
+        return false;
     }
 };
 
 #define VH_CAP(CH, N)                                                                                                  \
     if (cap == (N)) { return Run<CH, (N)>::run(op, in, impl, ref); }
+#define VH_CAPH(CH, N)                                                                                                 \
+    if (cap == (N)) { return Run<CH, (N), false>::run(op, in, impl, ref); }
 
 bool vh::run_case(std::string const& op, Toks& in, Out& impl, Out& ref)
 {
     auto ck  = in.str();
     auto cap = static_cast<std::size_t>(in.unum());
     if (ck == "c") {
-        VH_CAP(char, 0) VH_CAP(char, 1) VH_CAP(char, 2) VH_CAP(char, 3) VH_CAP(char, 7) VH_CAP(char, 15)
-        VH_CAP(char, 16) VH_CAP(char, 31) VH_CAP(char, 255) VH_CAP(char, 256)
+        VH_CAP(char, 0) VH_CAP(char, 1) VH_CAPH(char, 2) VH_CAP(char, 3) VH_CAP(char, 7) VH_CAP(char, 15)
+        VH_CAP(char, 16) VH_CAPH(char, 31) VH_CAPH(char, 254) VH_CAP(char, 255) VH_CAPH(char, 256)
     }
-    if (ck == "w") { VH_CAP(wchar_t, 1) VH_CAP(wchar_t, 3) VH_CAP(wchar_t, 15) VH_CAP(wchar_t, 16) }
-    if (ck == "u") { VH_CAP(char32_t, 3) VH_CAP(char32_t, 7) VH_CAP(char32_t, 16) }
-    if (ck == "s") { VH_CAP(char16_t, 15) }
-    if (ck == "b") { VH_CAP(char8_t, 16) }
+    if (ck == "w") {
+        VH_CAPH(wchar_t, 0) VH_CAP(wchar_t, 3) VH_CAPH(wchar_t, 15)
+        VH_CAP(wchar_t, 16) VH_CAPH(wchar_t, 256)
+    }
+    if (ck == "u") { VH_CAPH(char32_t, 0) VH_CAP(char32_t, 3) VH_CAPH(char32_t, 15) VH_CAP(char32_t, 16) }
+    if (ck == "s") { VH_CAPH(char16_t, 0) VH_CAPH(char16_t, 3) VH_CAP(char16_t, 15) VH_CAPH(char16_t, 16) }
+    if (ck == "b") { VH_CAPH(char8_t, 0) VH_CAPH(char8_t, 3) VH_CAPH(char8_t, 15) VH_CAP(char8_t, 16) }
     return false;
 }
 
